@@ -1,6 +1,7 @@
 (* C01 — convergence at quiescence. Property theorems only. *)
 From Coq Require Import List Arith.
 From RG Require Import Comp.Conv.
+From RG Require Comp.Core Proofs.CoreProofs.
 Import ListNotations.
 
 (* One cached resource, any number of subscribers, every interleaving of service mutations, the get answer,
@@ -18,3 +19,26 @@ Theorem C01_single_resource_convergence :
   loaded val upd (subs val upd σ s) = true /\ sval val upd (subs val upd σ s) = truth val upd σ /\ rs_val val upd σ = truth val upd σ.
 Proof. exact single_resource_convergence. Qed.
 Print Assumptions C01_single_resource_convergence.
+
+(* The integrated model Comp/Core.v (any number of connections, one flat resource; subscribe requests with their access and
+   get requests, change and custom events, both kinds of task queue; run in lock-step with the real gateway on every check):
+   for every sequence of stimuli and scheduler grants, when nothing is left to do - both kinds of queue empty, every request
+   the gateway sent answered - the copy a client rebuilds from the frames it was sent (the response's snapshot, then every
+   change event applied in order) is the state the service last announced, for every connection that asked. *)
+Theorem C01_core_client_copy_converges :
+  forall (val upd : Type) (app : upd -> val -> val) (norm : upd -> val -> option upd) (d : val),
+  (forall u v, norm u v = None -> app u v = v) ->
+  (forall u v u', norm u v = Some u' -> app u' v = app u v) ->
+  forall t ops c,
+  let s := fst (Core.exec val upd app norm d t ops) in let outs := snd (Core.exec val upd app norm d t ops) in
+  Core.quiescent val upd s -> Core.asked (Core.conns val upd s c) = true ->
+  Core.view val upd app c outs = Some (Conv.truth val upd (Core.cv val upd s)).
+Proof. exact CoreProofs.core_convergence. Qed.
+Print Assumptions C01_core_client_copy_converges.
+
+(* Every reachable state of the integrated model is a reachable state of the single-resource core, so its invariant holds. *)
+Theorem C01_core_refines_conv :
+  forall (val upd : Type) (app : upd -> val -> val) (norm : upd -> val -> option upd) (d : val) t ops,
+  exists acts, Core.cv val upd (fst (Core.exec val upd app norm d t ops)) = Conv.run val upd app norm d t acts.
+Proof. exact CoreProofs.core_reachable_conv. Qed.
+Print Assumptions C01_core_refines_conv.
